@@ -6,10 +6,12 @@ package zz_veriffake
 import (
 	"context"
 	"fmt"
+	"sort"
 
 	v1 "k8s.io/api/core/v1"
 	kerrors "k8s.io/apimachinery/pkg/api/errors"
 	"k8s.io/apimachinery/pkg/runtime/schema"
+	"k8s.io/apimachinery/pkg/watch"
 	"sigs.k8s.io/controller-runtime/pkg/client"
 
 	schedulingv1alpha2 "github.com/NVIDIA/KAI-scheduler/pkg/apis/scheduling/v1alpha2"
@@ -119,6 +121,20 @@ func (c *Client) List(ctx context.Context, list client.ObjectList, opts ...clien
 		}
 	}
 	switch l := list.(type) {
+	case *v1.PodList:
+		if err := c.S.call("list-pods", false); err != nil {
+			return err
+		}
+		keys := make([]string, 0, len(c.S.Pods))
+		for k := range c.S.Pods {
+			keys = append(keys, k)
+		}
+		sort.Strings(keys)
+		for _, k := range keys {
+			if podMatches(c.S.Pods[k], opts) {
+				l.Items = append(l.Items, *c.S.Pods[k].DeepCopy())
+			}
+		}
 	case *schedulingv2.QueueList:
 		if err := c.S.call("list-queues", false); err != nil {
 			return err
@@ -286,3 +302,86 @@ func (s *subResource) Create(ctx context.Context, obj client.Object, sub client.
 	s.c.S.Calls = append(s.c.S.Calls, "BOUND:"+b.Target.Name)
 	return nil
 }
+
+// podMatches interprets the list options the binder uses (labels, namespace, field selectors on
+// spec.nodeName / metadata.name).
+func podMatches(p *v1.Pod, opts []client.ListOption) bool {
+	for _, o := range opts {
+		switch x := o.(type) {
+		case client.HasLabels:
+			for _, k := range x {
+				if _, ok := p.Labels[k]; !ok {
+					return false
+				}
+			}
+		case client.MatchingLabels:
+			for k, v := range x {
+				if p.Labels[k] != v {
+					return false
+				}
+			}
+		case client.InNamespace:
+			if p.Namespace != string(x) {
+				return false
+			}
+		case client.MatchingFields:
+			for k, v := range x {
+				switch k {
+				case "spec.nodeName":
+					if p.Spec.NodeName != v {
+						return false
+					}
+				case "metadata.name":
+					if p.Name != v {
+						return false
+					}
+				default:
+					panic("zz_veriffake: unsupported field selector " + k)
+				}
+			}
+		default:
+			panic(fmt.Sprintf("zz_veriffake: unsupported list option %T", o))
+		}
+	}
+	return true
+}
+
+// Watch models the kubelet/reservation pod's asynchronous reaction to a newly created reservation
+// pod, chosen by the explorer: the pod gets its GPU-index annotation, an error event arrives, the
+// channel is closed, or nothing happens until the caller's timeout.
+func (c *Client) Watch(ctx context.Context, list client.ObjectList, opts ...client.ListOption) (watch.Interface, error) {
+	if err := c.S.call("watch-pods", false); err != nil {
+		return nil, err
+	}
+	w := &watcher{ch: make(chan watch.Event, 4)}
+	var target *v1.Pod
+	for _, p := range c.S.Pods {
+		if podMatches(p, opts) {
+			target = p
+		}
+	}
+	outcome := 0 // a healthy environment annotates the reservation pod
+	if c.S.FaultsOn {
+		outcome = vr.Choose("watch-outcome", 4)
+	}
+	switch outcome {
+	case 0:
+		if target != nil {
+			if target.Annotations == nil {
+				target.Annotations = map[string]string{}
+			}
+			target.Annotations["run.ai/reserve_for_gpu_index"] = "GPU-0"
+			w.ch <- watch.Event{Type: watch.Modified, Object: target.DeepCopy()}
+		}
+	case 1:
+		w.ch <- watch.Event{Type: watch.Error, Object: &v1.Pod{}}
+	case 2:
+		close(w.ch)
+	}
+	return w, nil
+}
+
+type watcher struct{ ch chan watch.Event }
+
+func (w *watcher) Stop()                          {}
+func (w *watcher) ResultChan() <-chan watch.Event { return w.ch }
